@@ -281,7 +281,7 @@ def run(ctx):
         if len(cs) != 1:
             ctx.bad(r7, key(f, inner), f.where(f.root), "expected exactly one call of %s()" % inner)
             continue
-        a = [f.canon(x) for x in f.args(cs[0])]
+        a = [f.canon(x, calls=True) for x in f.args(cs[0])]
         if kind == "str":
             want = ["h", "key2hash(h, key)", "key", "strlen(key)"]
         else:
